@@ -11,6 +11,7 @@ Helper lemmas: `Lemmas/Plot.lean`.
 import Bermuda.Model.Plot
 import Bermuda.Spec.C20
 import Bermuda.Lemmas.Plot
+import Bermuda.Lemmas.PlotSpec
 import Bermuda.Generated.PlotMetrics
 namespace Bermuda.Properties.C20
 open Bermuda Bermuda.Plot
@@ -267,14 +268,32 @@ example : interp [1, 2, 3, 4] (((1 : Rat) / 2) * (4 - 1)) = (5 : Rat) / 2 ∧
     interp [1, 2, 3, 4] (((1 : Rat) / 40) * (4 - 1)) = (43 : Rat) / 40 := by
   decide +kernel
 
--- OPEN spec_holds_on_model
---   theorem spec_holds_on_model (t : List Cell) (hd : t.Pairwise (fun a b => cellEq a b = false)) :
---     Spec.C20.holds 0 t (buildPlotData Generated.PlotMetrics.metrics t) = true
---   (the whole Spec predicate on the model's output. Proved above: the one-per-cell clause
---   `onePerCell_model`, the value of every metric given its row neighbours, name ↔ statistic tables,
---   monotonicity. Missing: `lookupLast` returns the cell's own row entry when cells are pairwise
---   distinct, and the row successor equals `Spec.C20.nextInSlice` (minimal later evaluation of the
---   same slice and period) when evaluation dates in a row are distinct. Both are exercised by the
---   driver: `specModel` is evaluated on every generated triangle.)
+/-! ### 6. the whole Spec holds on the model's output -/
+
+/-- THE BRIDGE: on a valid triangle (no two cells share metadata, period and evaluation date; value
+keys of a cell are distinct) the records computed by the model from the GENERATED tables satisfy
+every clause of the Spec exactly (tolerance 0): one record per cell in order; every loss ratio,
+pass-through and age-to-age summary is present exactly when its inputs are and carries the
+statistics its names state, the age-to-age ones computed against the next evaluation of the same
+slice and period; quantile entries monotone and between min and max. -/
+theorem spec_holds_on_model (t : List Cell) (hv : ValidT t) :
+    Spec.C20.holds 0 t (buildPlotData Generated.PlotMetrics.metrics t) = true := by
+  unfold Spec.C20.holds
+  simp only [Bool.and_eq_true]
+  exact ⟨⟨⟨⟨⟨onePerCell_model _ t, valuesOk_model hv _⟩, valuesOk_model hv _⟩, valuesOk_model hv _⟩,
+    absentOk_model hv⟩, monotoneOk_model _ t⟩
+
+/-- the hypothesis is satisfiable: a two-slice, two-evaluation triangle -/
+example :
+    ValidT [{ ps := ⟨2020, 1, 1⟩, pe := ⟨2020, 12, 31⟩, ev := ⟨2020, 12, 31⟩,
+              values := [("paid_loss", .int 2), ("earned_premium", .int 4)] },
+            { ps := ⟨2020, 1, 1⟩, pe := ⟨2020, 12, 31⟩, ev := ⟨2021, 12, 31⟩,
+              values := [("paid_loss", .int 3), ("earned_premium", .int 4)] },
+            { ps := ⟨2020, 1, 1⟩, pe := ⟨2020, 12, 31⟩, ev := ⟨2020, 12, 31⟩, md := { country := some "DE" },
+              values := [("paid_loss", .flt 1)] }] := by
+  unfold ValidT
+  constructor
+  · decide +kernel
+  · decide +kernel
 
 end Bermuda.Properties.C20
